@@ -52,6 +52,10 @@ CHECKS = {
          "deterministic simulation: SMTP DATA with sizes around a per-run limit, SIZE parameter absent/truthful/understated/overstated, seeded segmentation and buffers; refuse/accept oracle with a slack band, session reuse, store read back",
          "Seeded search over limits x sizes on both sides of the limit x SIZE parameter variants x connection segmentation; bodies are streamed through small simulated buffers so the server's read loop runs through its refill path.",
          "Sizes within 512 bytes of the limit are unconstrained (what 'size' counts is not fixed by the statement)."),
+ "C15": ("exploration", "DESIGN.md §4 C15",
+         "deterministic simulation: real message hub, real v1/v2 WebSocket monitor handlers (gorilla server and client over simulated connections, upgrade shim in place of net/http) and harness listeners under the seeded scheduler; clients stop reading, close or reset at seeded points with events queued; per-listener sequence oracle against a history model plus a bounded-progress check of the hub",
+         "Seeded search over scripts of dispatches, deletes, bursts, joins, idles and syncs x history lengths x listener kinds and fault timings x schedules (broadcast order over the listener set, select order in the writer, every channel operation is a scheduling point).",
+         "net/http's accept/serve loop is replaced by a 30-line shim with the same panic recovery; the attach position of a WebSocket listener is only known as a bracket, any position in it is accepted. History length 0 (documented to disable the monitor) is not exercised."),
 }
 
 NOT_YET = "check under construction in this session; not claimed until it runs clean on the unchanged tree"
